@@ -200,10 +200,14 @@ class AddData(Command):
     label = 'add data'
 
     def do(self, session):
+        # adding a dataset that is already in the collection changes nothing,
+        # in which case there is nothing to undo
+        self._added = self.data not in session.data_collection
         session.data_collection.append(self.data)
 
     def undo(self, session):
-        session.data_collection.remove(self.data)
+        if self._added:
+            session.data_collection.remove(self.data)
 
 
 class RemoveData(Command):
@@ -211,10 +215,15 @@ class RemoveData(Command):
     label = 'remove data'
 
     def do(self, session):
-        session.data_collection.remove(self.data)
+        # remember where the dataset was, so that undo can put it back there
+        # (None if it was not in the collection: there is nothing to undo)
+        dc = session.data_collection
+        self._index = dc.index(self.data) if self.data in dc else None
+        dc.remove(self.data)
 
     def undo(self, session):
-        session.data_collection.append(self.data)
+        if self._index is not None:
+            session.data_collection.insert(self._index, self.data)
 
 
 class NewDataViewer(Command):
